@@ -55,6 +55,12 @@ def check(ctx):
     ctx.floor(R3, "accept loops (Iterator::next on a listener's Incoming) in %s" % START, len(nexts), 2)
     spawn_closures = []
     for nx in nexts:
+        # the accepted connections are iterated directly: an adaptor that ends the iteration early (map_while/take_while/take/scan..)
+        # turns the first failed accept into the end of the server
+        chain = arg_origins(nx, 0)
+        early = sorted(v for v in chain.via if v.rsplit("::", 1)[-1] in ("map_while", "take_while", "take", "scan", "step_by", "fuse", "zip", "try_for_each", "try_fold"))
+        ctx.require(R3, not early, nx.where(), "the listener's iterator is not cut short by an early-terminating adaptor (%s)" % [v.rsplit("::", 1)[-1] for v in early],
+                    [START, "loop-exit-adaptor"])
         scc = start.scc_of(nx.bb)
         if scc is None:
             ctx.fail(R3, nx.where(), "listener.incoming().next() is not inside a loop", [START, "no-loop", nx.res])
